@@ -206,7 +206,10 @@ impl<'tcx> Cx<'tcx> {
             };
         }
         let is_trait_item = tcx.trait_of_assoc(did).is_some();
+        let is_unsafe = matches!(tcx.def_kind(did), DefKind::Fn | DefKind::AssocFn)
+            && tcx.fn_sig(did).skip_binder().skip_binder().safety().is_unsafe();
         J::O(vec![
+            ("unsafe", J::B(is_unsafe)),
             ("path", J::S(path)),
             ("full", J::S(full)),
             ("args", J::A(gargs)),
